@@ -140,3 +140,25 @@ macro_rules! value_total {
 value_total!(value_total_6, 6);
 //@ C01 thorough | SnmpValue::from_ber on every byte string of length 11
 value_total!(value_total_11, 11);
+
+//@ C01 quick | RELATIVE-OID name: SnmpRelativeOid::from_ber + normalize against ANY base OID of 1..4 octets, relative content of 0..4 arbitrary octets: returns, never panics
+#[kani::proof]
+#[kani::unwind(8)]
+#[kani::stub(alloc::fmt::format, stub_format)]
+fn reloid_normalize_total() {
+    let rel: [u8; 4] = kani::any();
+    let rn: usize = kani::any();
+    kani::assume(rn <= 4);
+    let tlv = [0x0du8, rn as u8, rel[0], rel[1], rel[2], rel[3]];
+    let base: [u8; 4] = kani::any();
+    let bn: usize = kani::any();
+    kani::assume(bn >= 1 && bn <= 4);
+    let b = SnmpOid::from(base[..bn].to_vec());
+    if let Ok((_, r)) = SnmpRelativeOid::from_ber(&tlv[..2 + rn]) {
+        let n = r.normalize(&b);
+        kani::cover!(n.0.len() > bn, "longer than base");
+        kani::cover!(rn == 0, "empty relative oid");
+        core::mem::forget(n);
+    }
+    core::mem::forget(b);
+}
